@@ -1386,3 +1386,61 @@ Proof.
   exists [RHs 0 [mkFrag 1 2 0 1 [9]] 0; RHs 0 [mkFrag 1 7 0 0 [8]] 0]. eexists. split; [vm_compute; reflexivity|].
   vm_compute. intro H. discriminate.
 Qed.
+
+(* ------------------------------------------------------------------ list-level restatements *)
+
+Lemma firstn_succ_nth {A} (d : A) : forall l k, (k < length l)%nat -> firstn (S k) l = firstn k l ++ [nth k l d].
+Proof.
+  induction l as [|x l IH]; intros k Hk; [cbn in Hk; lia|].
+  destruct k as [|k]; [reflexivity|]. cbn [length] in Hk.
+  change (firstn (S (S k)) (x :: l)) with (x :: firstn (S k) l). rewrite (IH k) by lia. reflexivity.
+Qed.
+
+Lemma idx_nth_firstn {A B} (g : A -> B) (l : list A) (d : A) : forall k : nat, (k <= length l)%nat ->
+  map (fun j => g (nth (N.to_nat j) l d)) (idx (N.of_nat k)) = firstn k (map g l).
+Proof.
+  induction k as [|k IH]; intro Hk; [reflexivity|].
+  replace (N.of_nat (S k)) with (N.of_nat k + 1) by lia. rewrite idx_succ, map_app, IH by lia.
+  cbn [map]. rewrite Nat2N.id.
+  rewrite (firstn_succ_nth (g d)) by (rewrite map_length; lia). now rewrite map_nth.
+Qed.
+
+(* honest messages given as a list: message j is the j-th element *)
+Definition msg_fn (msgs : list hmsg) (j : N) : hmsg := nth (N.to_nat j) msgs (mkMsg 0 0 []).
+Definition numbered (msgs : list hmsg) : Prop :=
+  forall j, j < N.of_nat (length msgs) -> m_seq (msg_fn msgs j) = j.
+
+Theorem reassembly_safe_list (msgs : list hmsg) (rs : list record) :
+  N.of_nat (length msgs) < 65536 -> numbered msgs ->
+  Forall (honest_rec (N.of_nat (length msgs)) (msg_fn msgs)) rs ->
+  let '(st, pops, pn) := run init rs in
+  pn = false /\ (N.to_nat (cur st) <= length msgs)%nat /\
+  map strip pops = firstn (N.to_nat (cur st)) (map hstrip msgs).
+Proof.
+  intros Hn Hnum Hrs. pose proof (reassembly_safe _ _ Hn Hnum rs Hrs) as H.
+  destruct (run init rs) as [[st pops] pn]. destruct H as (H1 & H2 & H3).
+  split; [exact H1|split; [lia|]]. rewrite H3.
+  rewrite <- (idx_nth_firstn hstrip msgs (mkMsg 0 0 []) (N.to_nat (cur st))) by lia.
+  rewrite N2Nat.id. reflexivity.
+Qed.
+
+Theorem reassembly_complete_list (msgs : list hmsg) (P : N -> list frag) (rs : list record) :
+  let n := N.of_nat (length msgs) in
+  n < 65536 -> numbered msgs -> (forall j, j < n -> good_part (msg_fn msgs j) (P j)) ->
+  cap_frags n P < max_count ->
+  Forall (fun r => part_rec n P r /\ cap_bytes n P + record_size r < max_size) rs ->
+  let '(st, pops, pn) := run init rs in
+  pn = false /\
+  map strip pops = firstn (N.to_nat (cur st)) (map hstrip msgs) /\
+  (forall j, j < n -> (forall i f, i <= j -> In f (P i) -> In f (arrived rs)) -> j < cur st) /\
+  (forall j f, j < cur st -> In f (P j) -> 0 < f_flen f -> In f (arrived rs)).
+Proof.
+  cbv zeta. intros Hn Hnum Hgp Hcf Hrs.
+  assert (HM : forall j, j < N.of_nat (length msgs) -> m_seq (msg_fn msgs j) = j /\ good_part (msg_fn msgs j) (P j))
+    by (intros j Hj; split; [now apply Hnum|now apply Hgp]).
+  pose proof (reassembly_complete _ _ P Hn HM rs Hcf Hrs) as H.
+  destruct (run init rs) as [[st pops] pn]. destruct H as (H1 & H2 & H3 & H4 & H5).
+  split; [exact H1|split; [|split; [exact H4|exact H5]]]. rewrite H3.
+  rewrite <- (idx_nth_firstn hstrip msgs (mkMsg 0 0 []) (N.to_nat (cur st))) by lia.
+  rewrite N2Nat.id. reflexivity.
+Qed.
